@@ -37,6 +37,19 @@ SPEC = {
 }
 
 
+class Ticker:
+    """A self-rescheduling event that belongs to no asset (asset id -1, like the library's own housekeeping
+    events): it must survive the end of one simulate() call and go on in the next."""
+
+    def __init__(self, env, period):
+        self.env, self.period = env, period
+        self.__name__ = 'ticker'
+
+    def __call__(self):
+        self.env.add_datapoint('tick', 'harness', (self.env.now,))
+        self.env.schedule_event(self.env.now + self.period, -1, self, 4.5)
+
+
 def normaliser(base):
     def norm(x):
         return x - base if isinstance(x, int) and not isinstance(x, bool) else x
@@ -107,6 +120,8 @@ def run_model(spec, seed, segments, tie, offset=0, system=None):
     random.seed(seed)
     with instrument.use_bus(bus):
         m = build_mod.build(dict(spec, tie=tie, seed=seed), bus=None, system=system)
+        env = m.system.env
+        env.schedule_event(0.625, -1, Ticker(env, 1.25), 4.5)
         for d in segments:
             m.system.simulate(d, print_summary=False)
     return digest(m, base), bus.dispatch_serial, m
